@@ -30,58 +30,52 @@ def run(repo: Repo, chk: Check) -> None:
     unwrap_args(repo, chk)
     provider(repo, chk)
     request_path(repo, chk)
+    sealed_requests(repo, chk)
     no_swallow(repo, chk, "O5", ["_rpc._client", "_rpc._auth"])
 
 
 # ------------------------------------------------------------------------- O1
 def must_unwrap(repo: Repo, chk: Check) -> None:
+    """Path summaries of _process_response (paths that decide one condition both ways are infeasible and dropped): every
+    returning path on which the call is authenticated and the request was sealed (self._auth and encrypt_offsets true)
+    calls self._auth.unwrap, stores that result into the reply buffer, then parses the buffer, and returns that PDU."""
+    from sa.pathsum import Summary
+
+    from .util import recv_of
+
     f = repo.method("_rpc._client.RpcClient", "_process_response")
     chk.analysed(f)
-    g = build(f.node)
-    # atoms must keep their value along a path: nothing assigns their roots
-    assigned = set()
+    summ = Summary(f, ["self", "response", "pdu_header", "resp_type", "encrypt_offsets"], prune=True)
     for n in body_nodes(f.node):
         if isinstance(n, (ast.Assign, ast.AugAssign, ast.AnnAssign)):
             for tg in (n.targets if isinstance(n, ast.Assign) else [n.target]):
-                assigned.add(unparse(tg))
-    for root in ("self._auth", "encrypt_offsets", "pdu_header", "self"):
-        if root in assigned:
-            chk.ob("O1", Site.of(f, construct=f"assignment to {root}"), False, f"{root} is reassigned inside _process_response: the authenticated-call test is no longer stable")
-    unwrap_nodes = {n.id for n in g.nodes if n.ast is not None and n.kind == "stmt" and any(isinstance(x, ast.Call) and unparse(x.func) == "self._auth.unwrap" for x in ast.walk(n.ast))}
-    parse_nodes = {n.id for n in g.nodes if n.ast is not None and n.kind == "stmt" and any(isinstance(x, ast.Call) and unparse(x.func) == "PDU.unpack" for x in ast.walk(n.ast))}
-    if not unwrap_nodes or not parse_nodes:
-        raise AnalysisError("_process_response: unwrap or PDU.unpack call vanished")
-    store_nodes = set()
-    for n in g.nodes:
-        if n.kind == "stmt" and isinstance(n.ast, ast.Assign) and isinstance(n.ast.targets[0], ast.Subscript) and unparse(n.ast.targets[0].value) == f.params[1]:
-            store_nodes.add(n.id)
+                if unparse(tg) in ("self._auth", "encrypt_offsets", "pdu_header", "self", "pdu_header.auth_len"):
+                    chk.ob("O1", Site.of(f, n, f"assignment to {unparse(tg)}"), False, f"{unparse(tg)} is reassigned inside _process_response: the authenticated-call test is no longer stable")
     total = sealed = 0
     bad: t.List[str] = []
-    for path, exit_id, dec in g.paths(lambda n: None, key=lambda n: unparse(n.ast)):
-        if exit_id != g.ret:
-            continue
+    for ps in summ.returning():
         total += 1
-        if not (dec.get("self._auth") and dec.get("encrypt_offsets")):
+        facts = ps.facts()
+        site_r = Site.of(f, ps.exit_node)
+        parses = [c for c in ps.calls("PDU.unpack") if [ps.text(a) for a in t.cast(ast.Call, c.tree).args] == ["response"]]
+        okv = len(parses) >= 1 and ps.key(ps.value) == ps.key(parses[-1].tree)
+        chk.ob("O1", site_r, okv, "returns the PDU parsed from the reply buffer" if okv else f"returns {ps.text(ps.value)[:80]}, not PDU.unpack(response)")
+        if not ("self._auth" in facts and "encrypt_offsets" in facts):
             continue
         sealed += 1
-        pos_u = [i for i, x in enumerate(path) if x in unwrap_nodes]
-        pos_p = [i for i, x in enumerate(path) if x in parse_nodes]
-        pos_s = [i for i, x in enumerate(path) if x in store_nodes]
-        if not pos_u:
-            bad.append("returns a PDU without calling unwrap when " + ", ".join(f"{k}={v}" for k, v in sorted(dec.items())))
-        elif not pos_p or not pos_s or not (pos_u[0] < pos_s[0] < pos_p[0]):
+        unw = [c for c in ps.calls("unwrap") if ps.text(recv_of(t.cast(ast.Call, c.tree))) == "self._auth"]
+        if not unw:
+            bad.append("returns a PDU without calling unwrap on an authenticated call with a sealed request (path: " + ", ".join(sorted(facts))[:200] + ")")
+            continue
+        order = {id(e): i for i, e in enumerate(ps.events)}
+        st = [e for e in ps.stores() if isinstance(e.target, ast.Subscript) and ps.text(e.target.value) == "response" and ps.key(e.tree) == ps.key(unw[0].tree)]
+        if not st or not parses or not (order[id(unw[0])] < order[id(st[0])] < order[id(parses[-1])]):
             bad.append("does not store the unwrapped stub into the reply before parsing it")
     chk.count("sealed return paths", sealed)
     chk.table("_process_response paths", {"returning": total, "returning with auth and sealed request": sealed})
     site = Site.of(f, construct="every accepted reply on an authenticated, sealed call passes through unwrap")
     chk.ob("O1", site, not bad and sealed > 0, "all such paths unwrap, store, then parse" if not bad else "; ".join(sorted(set(bad))[:3]))
     chk.require_min("sealed return paths", 1)
-    # the value returned is the parsed PDU
-    rets = [n for n in body_nodes(f.node) if isinstance(n, ast.Return)]
-    parsed_names = {unparse(n.targets[0]) for n in body_nodes(f.node) if isinstance(n, ast.Assign) and isinstance(n.value, ast.Call) and unparse(n.value.func) == "PDU.unpack" and unparse(n.value.args[0]) == f.params[1]}
-    for r in rets:
-        ok = r.value is not None and unparse(r.value) in parsed_names
-        chk.ob("O1", Site.of(f, r), ok, "returns the PDU parsed from the reply buffer" if ok else f"returns {unparse(r.value)}, not PDU.unpack({f.params[1]})")
 
 
 # ------------------------------------------------------------------------- O2
@@ -221,6 +215,35 @@ def provider(repo: Repo, chk: Check) -> None:
 
 
 # ------------------------------------------------------------------------- O4
+def sealed_requests(repo: Repo, chk: Check) -> None:
+    """_create_request: on every returning path of an authenticated client the request carries a security trailer and
+    the encrypt offsets are a (start, end) pair - never None - whatever the stub looks like (an empty stub is still
+    sealed); otherwise _process_response has no reason to insist on a protected reply."""
+    from sa.pathsum import Summary
+
+    from .util import args_of
+
+    f = repo.method("_rpc._client.RpcClient", "_create_request")
+    chk.analysed(f)
+    summ = Summary(f, ["self", "context_id", "opnum", "stub_data", "verification_trailer"], prune=True)
+    n = 0
+    for ps in summ.returning():
+        if "self._auth" not in ps.facts():
+            continue
+        n += 1
+        v = ps.value
+        site = Site.of(f, ps.exit_node)
+        ok = isinstance(v, ast.Tuple) and len(v.elts) == 2
+        eo = v.elts[1] if ok else None
+        okeo = isinstance(eo, ast.Tuple) and len(eo.elts) == 2
+        chk.ob("O3", site, bool(okeo), "authenticated requests always carry encrypt offsets (start, end)" if okeo else f"on an authenticated client _create_request can return encrypt offsets {ps.text(eo) if eo is not None else '?'} (path: {', '.join(sorted(ps.facts()))[:160]}): the request goes out unsealed and the reply is accepted without unwrap")
+        req = v.elts[0] if ok else None
+        kws = args_of(repo, f, req) if isinstance(req, ast.Call) else {}
+        okt = kws.get("sec_trailer") is not None and ps.text(kws["sec_trailer"]).startswith("self._auth.get_empty_trailer(")
+        chk.ob("O3", site, okt, "with the provider's security trailer" if okt else f"Request.sec_trailer is {ps.text(kws.get('sec_trailer'))}")
+    chk.ob("O3", Site.of(f, construct="authenticated request paths"), n >= 1, f"{n} authenticated returning path(s)")
+
+
 def request_path(repo: Repo, chk: Check) -> None:
     for q in ("_rpc._client.SyncRpcClient.request", "_rpc._client.AsyncRpcClient.request"):
         f = repo.func(q)
